@@ -88,7 +88,11 @@ func (s *TcpServer) serve(ln net.Listener) {
 
 func (s *TcpServer) accept(conn net.Conn) {
 	var endpoint = NewTcpConn(0, conn, s.enc, s.errors, s.inbound, s.outsize, stats.New(NumStat))
-	s.backlog <- endpoint // this may block current goroutine
+	select {
+	case s.backlog <- endpoint: // this may block current goroutine
+	case <-s.done:
+		conn.Close()
+	}
 }
 
 func (s *TcpServer) Close() {
